@@ -7,6 +7,20 @@ def run(ctx):
     d = 24 if quick else 40
     cfg = dict(nt=1, nx=2, sync=False, rollback=False, faults=False, crash=False)
     queries = [('reach', 26, ['reach:tx1-applied']), ('stuck', d, ['bad:stranded'])]
-    proto.run(ctx, 'C09', [('1x2', cfg, queries, ['c09'])],
+    # waypoints (deeper histories): from one reachable state of each class of the first two transactions
+    # (C committed-not-applied, A applied, F failed) every continuation of 14 steps
+    way2 = lambda a, b: {'pred': 'reach:w-' + a + b, 'depth': 18, 'seed': {'pred': 'reach:w-' + a + '-', 'depth': 20}}
+    queries += [('stuck', 14, ['bad:stranded'], way2(a, b)) for a, b in (('C', 'F'), ('C', 'C'))]
+    configs = [('1x2', cfg, queries, ['c09'])]
+    if not quick:
+        # three transactions on one target: the third is committed on top of a committed/failed pair, then 14 steps
+        cfg3 = dict(nt=1, nx=3, sync=False, rollback=False, faults=False, crash=False)
+        def way3(a, b, c):
+            s1 = {'pred': 'reach:w-%s--' % a, 'depth': 18}
+            s2 = {'pred': 'reach:w-%s%s-' % (a, b), 'depth': 18, 'seed': s1}
+            return {'pred': 'reach:w-%s%s%s' % (a, b, c), 'depth': 24, 'seed': s2}
+        q3 = [('stuck', 14, ['bad:stranded'], way3(a, b, 'C')) for a, b in (('C', 'F'), ('C', 'C'), ('A', 'F'))]
+        configs.append(('1x3', cfg3, q3, []))
+    proto.run(ctx, 'C09', configs,
               'BMC deadlock-freedom: no reachable state is a fixed point of every Reconcile (probe step per id) while a transaction '
               'with all targets connected is not final', {'bmc_depth': d})
